@@ -54,6 +54,9 @@ def verify(sid):
         assert r.returncode == 0, r.stderr
         env = clean_env()
         env["PYTHONPATH"] = os.path.join(wt, "src")
+        # tests/test_io writes fixed file names into the temp dir: keep concurrent runs apart
+        env["TMPDIR"] = os.path.join(wt, ".tmp")
+        os.makedirs(env["TMPDIR"], exist_ok=True)
         r0 = sh(["/venv/bin/python", demo], env=env, cwd=wt, timeout=900)
         r = sh(["git", "-C", wt, "apply", patch])
         if r.returncode:
@@ -84,6 +87,30 @@ def verify(sid):
     finally:
         sh(["git", "-C", "/repo", "worktree", "remove", "--force", wt])
         shutil.rmtree(wt, ignore_errors=True)
+
+
+def run_scratch(sid, tier, props):
+    """Same as run() but against a scratch copy of /repo/src (CV_COBRA_SRC) - for use while
+    something else is running against /repo.  Results are stored under '<tier>@scratch'."""
+    d = os.path.join(SEEDED, sid)
+    m = meta_of(sid)
+    props = props or m["property"].split(",")
+    tmp = tempfile.mkdtemp(prefix="seedscratch-")
+    try:
+        shutil.copytree("/repo/src", os.path.join(tmp, "src"))
+        r = sh(["patch", "-p1", "-s", "-d", tmp, "-i", os.path.join(d, "patch.diff")])
+        assert r.returncode == 0, r.stdout + r.stderr
+        env = clean_env()
+        env["CV_COBRA_SRC"] = os.path.join(tmp, "src")
+        for prop in props:
+            r = sh([os.path.join(VERIF, "check"), prop, tier], cwd=VERIF, env=env)
+            keys = [l.strip() for l in r.stdout.splitlines() if l.strip().startswith("key=")]
+            verdict = "CAUGHT" if r.returncode == 1 and "VIOLATION" in r.stdout else ("MISSED" if r.returncode == 0 else f"rc={r.returncode}")
+            m.setdefault("checks", {}).setdefault(prop, {})[tier + "@scratch"] = verdict
+            print(f"{sid:28s} {prop} {tier}@scratch: {verdict}" + (f"  e.g. {keys[0][:140]}" if keys and verdict == "CAUGHT" else ""), flush=True)
+    finally:
+        shutil.rmtree(tmp, ignore_errors=True)
+    save_meta(sid, m)
 
 
 def run(sid, tier, props):
@@ -128,9 +155,11 @@ def main():
         if mode == "verify":
             m = verify(sid)
             print(f"{sid:28s} {m.get('verify')} demo={m.get('demo')} tests={m.get('tests')}", flush=True)
+        elif mode == "scratch":
+            run_scratch(sid, tier, props)
         else:
             run(sid, tier, props)
-    if mode == "run":
+    if mode in ("run", "scratch"):
         print("NOTE: evidence/*.json were overwritten while patches were applied; re-run the checks on the clean tree before committing evidence")
 
 
